@@ -39,7 +39,7 @@ def directed(rng: random.Random) -> dict:
     body: list = [{"k": "org", "e": E(0x8000)}]
     kind = rng.choice(["capture_eager", "capture_deferred", "forward_label", "local_labels", "recursion", "code_block", "undefined_macro",
                        "too_few", "nested", "zero_params", "shadow_outer", "arg_uses_later_param", "param_shadows_global_unsized",
-                       "mixed_immediate_and_deferred"])
+                       "mixed_immediate_and_deferred", "splice_in_nested_scope"])
     expect_reject = False
     if kind == "capture_eager":
         body += [{"k": "macro", "n": "macA", "ps": ["pa", "pb"], "b": [db(E("pa"), E("pb"))]},
@@ -62,6 +62,15 @@ def directed(rng: random.Random) -> dict:
             {"k": "assign", "n": "cnM", "e": E("pn", "+", 1)}, db(E("cnM"))]},
             {"k": "call", "n": "macM", "as": [E(rng.choice([0, 1, 3])), E("fwdM")]},
             {"k": "call", "n": "macM", "as": [E(2), E("fwdM", "+", 1)]}, {"k": "label", "n": "fwdM"}, db(0xEE)]
+    elif kind == "splice_in_nested_scope":
+        where = rng.choice(["for", "block", "scope", "if", "inner_call"])
+        sp = {"k": "splice", "n": "pcode"}
+        inner = {"for": {"k": "for", "v": "itS", "a": E(0), "b": E("pn"), "body": [sp]}, "block": {"k": "block", "b": [sp, db(9)]},
+                 "scope": {"k": "scope", "n": "nsS", "b": [sp]}, "if": {"k": "if", "c": E("pn"), "t": [{"k": "block", "b": [sp]}], "e": [sp]},
+                 "inner_call": {"k": "call", "n": "macW", "as": [{"blk": [sp, db(8)]}]}}[where]
+        body += [{"k": "macro", "n": "macW", "ps": ["pw"], "b": [db(7), {"k": "splice", "n": "pw"}]},
+                 {"k": "macro", "n": "macP", "ps": ["pn", "pcode"], "b": [db(E("pn")), inner]},
+                 {"k": "call", "n": "macP", "as": [E(rng.choice([1, 2, 3])), {"blk": [db(0x55), {"k": "ins", "m": "nop", "shape": "imp", "sz": "", "e": None}]}]}]
     elif kind == "capture_deferred":
         # the argument mentions a label whose name equals a parameter name: it must mean the call site's label
         body += [{"k": "macro", "n": "macA", "ps": ["pa", "pb"], "b": [{"k": "data", "d": "dl", "es": [E("pa"), E("pb")]}]},
